@@ -156,6 +156,10 @@ func (in *Interp) boxEq(a, b *SliceV) *Term {
 		if a.box == b.box {
 			return True
 		}
+		if a.box.alt != b.box.alt {
+			// different encodings: different byte strings (even when they decode to the same message)
+			return False
+		}
 		if !types.Identical(a.box.typ, b.box.typ) {
 			// different message types: encodings could coincide only by accident; unknown
 			return in.fresh("zz.boxeq.cross", BoolSort)
